@@ -299,6 +299,18 @@ fn h4(out: &mut Vec<ModuleSpec>, _thorough: bool) {
             out,
             false,
         );
+        // the withdrawn datum is not the most recent one: later data must not take its place in the order
+        fragments(
+            ModuleSpec::new(
+                format!("h4/pending_removed_not_last/{}", s.name()),
+                vec![
+                    add("ghost", U64), add("a", U32), rm("ghost"), add("b", Str), close(s),
+                    add("g2", U16), add("c", U8), add("d", Str), rm("g2"), add("e", U64), rm("a"), close(s),
+                ],
+            ),
+            out,
+            false,
+        );
         fragments(
             ModuleSpec::new(
                 format!("h4/pending_removed_later/{}", s.name()),
@@ -777,6 +789,82 @@ pub fn adaptive(thresholds: &[usize]) -> Vec<ModuleSpec> {
                 h.push(add("x", Noisy));
                 h.push(close(Simple));
                 fragments(ModuleSpec::new(format!("adaptive/extent{}/{}+owning", n, count), h), &mut out, false);
+            }
+        }
+        // a step that removes / adds about N data at once (batch paths of the builders and strategies)
+        for k in [n - 1, n, n + 1] {
+            if k == 0 || k > 150 {
+                continue;
+            }
+            for (label, s) in [("simple", Simple), ("basic", Basic), ("append", Append)] {
+                let base = k + 4;
+                let tys = [U8, U64, U16, Str, U32, U8, VecU32, U16];
+                let mut h = Vec::new();
+                for i in 0..base {
+                    let ty = tys[i % tys.len()];
+                    h.push(if ty.is_copy() && i % 3 == 0 { addu(&f(i), ty) } else { add(&f(i), ty) });
+                }
+                h.push(close(s));
+                // removals requested in an order that is neither the insertion nor the address order
+                let mut victims: Vec<usize> = (0..base).filter(|i| i % (base / k.min(base - 1)).max(1) == 0).take(k).collect();
+                let mut i = 0;
+                while victims.len() < k {
+                    if !victims.contains(&i) {
+                        victims.push(i);
+                    }
+                    i += 1;
+                }
+                victims.reverse();
+                for v in &victims {
+                    h.push(rm(&f(*v)));
+                }
+                h.push(add("n0", U64));
+                h.push(add("n1", Str));
+                h.push(addu("n2", U16));
+                h.push(close(s));
+                h.push(add("late", U32));
+                h.push(close(Simple));
+                fragments(ModuleSpec::new(format!("adaptive/remove{}/{}/{}", n, k, label), h), &mut out, false);
+            }
+            let mut h = vec![add("k0", Str), addu("k1", U8), close(Simple)];
+            for i in 0..k {
+                let tys = [U16, U64, U8, Str, U32];
+                h.push(add(&f(i), tys[i % tys.len()]));
+            }
+            h.push(rm("k1"));
+            h.push(close(Simple));
+            fragments(ModuleSpec::new(format!("adaptive/add{}/{}", n, k), h), &mut out, false);
+        }
+        // a datum of about N bytes: carried, removed with its bytes re-used, added over freed bytes
+        if n >= 4 {
+            let mut big: Vec<Ty> = vec![Blob(n - 1), Blob(n), Blob(n + 1)];
+            for w in [n / 8, n / 8 + 1] {
+                if w >= 1 && n / 8 >= 1 {
+                    big.push(Words(w));
+                }
+            }
+            if n >= 32 {
+                for w in [(n - 24) / 8, (n - 24) / 8 + 1] {
+                    big.push(Heavy(w));
+                }
+            }
+            for (bi, b) in big.iter().enumerate() {
+                let uninit_ok = b.is_copy();
+                let mk = |name: &str, u: bool| if u && uninit_ok { addu(name, *b) } else { add(name, *b) };
+                // removed, bytes re-used by several smaller data
+                let h = vec![
+                    add("tag", U64), mk("blob", false), add("s", Str), addu("small", U16), close(Simple),
+                    rm("blob"), add("p", U64), add("q", Str), addu("r", U32), close(Simple),
+                    rm("p"), add("late", U16), close(Simple),
+                ];
+                fragments(ModuleSpec::new(format!("adaptive/size{}/{}/removed", n, bi), h), &mut out, false);
+                // may be uninitialised, next to narrower may-be-uninitialised data; added in a later step over freed bytes
+                let h = vec![
+                    add("s", Str), addu("a", U8), mk("blob", true), addu("b", U32), add("v", VecU32), close(Basic),
+                    rm("v"), rm("a"), mk("blob2", true), add("w", Str), close(Simple),
+                    rm("blob"), add("late", U64), close(Basic),
+                ];
+                fragments(ModuleSpec::new(format!("adaptive/size{}/{}/uninit+added", n, bi), h), &mut out, false);
             }
         }
     }
